@@ -150,7 +150,11 @@ def check_c01(ctx):
     nlog += ne2e
     # bindings that watch the same objects share one client-go informer (FactoryStore): spec/SharedInformers
     import shared
-    nlog += shared.run(ctx, ("C01/",))
+    nlog += shared.run(ctx, ("C01/",), mc=False)
+    # namespace.labelSelector bindings: namespaces start and stop matching, are deleted and come back (spec/Snapshot/SnapshotNs):
+    # the Synchronization view plus the events passed on must reproduce the matching objects
+    import snap
+    nlog += snap.namespaces(ctx, vlib.go_build(ctx, "snap"), prefixes=("C01/",), mc=False)
     ctx.cov["delivery_runs"] = runs
     ctx.cov["delivery_events"] = len(events)
     ctx.log("manager level: %d free-running runs (%d trace records) validated by TLC against KubeDelivery: %s" % (runs, len(events), t["violated"] or "accepted"))
